@@ -248,3 +248,8 @@ func kindsFromEnv(def []backends.Kind) []backends.Kind {
 	}
 	return out
 }
+
+func md5hexBytes(b []byte) []byte {
+	s := md5.Sum(b)
+	return s[:]
+}
